@@ -62,6 +62,8 @@ def prop(case, ctx):
     # pylint: disable=too-many-branches,too-many-locals
     out = Outcome()
     out.label('family:' + case['family'], 'rule:' + case['opts']['rule'])
+    if case.get('planted'):
+        out.label('planted:' + case['planted'])
     ref = Ref(case['ref'])
     p = M.params_of(case['opts'])
     canon_lo = M.canonical(ref, p, strict=True)
